@@ -136,6 +136,19 @@ func vLexLE(a, b weight) bool {
 //@   loop 2 step[later-wins-ties] (style[decl.Name].weight == we && style[decl.Name].value == decl.Value) || (!old(style[decl.Name].weight).isNone() && !vLexLE(old(style[decl.Name].weight), we))
 //@   loop 6 step[later-wins-ties-sheets] (style[decl.Name].weight == we && style[decl.Name].value == decl.Value) || (!old(style[decl.Name].weight).isNone() && !vLexLE(old(style[decl.Name].weight), we))
 
+// The same cascade for page contexts (css-page-3 §4: "the cascade applies to @page rules"): a declaration of a
+// matching @page rule replaces the stored one exactly when the slot is empty or its weight is >= the stored weight,
+// so that among @page rules of equal origin, importance and specificity the LAST declaration wins.
+//@ func (StyleFor).addPageDeclarations
+//@   props C12 C03
+//@   modifies anything
+//@   unclaimed call-*-pre* "page types and compiled page selectors: data invariants of the style sheets"
+//@   call pageTypeMatch#1 assert[rules-selected-by-their-page-selector] arg0 == sel.pageType && arg1 == page_T
+//@   call mapupdate#2 assert[weight-of-the-declaration] we.precedence == declarationPrecedence(sh.origin, decl.Important) && we.specificity == specificity
+//@   call mapupdate#2 assert[never-replaces-a-heavier-declaration] oldWeight.isNone() || vLexLE(oldWeight, we)
+//@   call mapupdate#2 assert[stores-the-declaration] arg2.weight == we && arg1 == decl.Name
+//@   loop 4 step[later-wins-ties] (style[decl.Name].weight == we && style[decl.Name].value == decl.Value) || (!old(style[decl.Name].weight).isNone() && !vLexLE(old(style[decl.Name].weight), we))
+
 //@ func (pageIndex).IsNone
 //@   props C12
 //@   inline
@@ -903,3 +916,60 @@ func vPresentationalHints() (n int, fails []string) {
 
 //@ bounded vPresentationalHints the presentational-hint reader on 20 tags x 17 attributes x 22 hostile attribute values (7 480 documents): no panic
 //@   props C07
+
+// bounded stand-in (C03, "which declarations take part in the cascade"): findStylesheets is trusted for its frame
+// only. vMediaAttributes gives a <style> element every media attribute made of one to three of screen, print, all,
+// tv joined by four spellings of the comma (with and without surrounding white space) with or without outer padding
+// (672 attributes) and renders for print: the sheet's declaration applies exactly when some entry is print or all
+// (HTML §4.2.6: a comma-separated media query list, white space around the entries is not significant).
+func vMediaAttributes() (n int, fails []string) {
+	logger.WarningLogger.SetOutput(io.Discard)
+	defer logger.WarningLogger.SetOutput(os.Stdout)
+	logger.ProgressLogger.SetOutput(io.Discard)
+	defer logger.ProgressLogger.SetOutput(os.Stdout)
+	types := []string{"screen", "print", "all", "tv"}
+	var lists [][]string
+	for _, a := range types {
+		lists = append(lists, []string{a})
+		for _, b := range types {
+			lists = append(lists, []string{a, b})
+			for _, c := range types {
+				if a != c {
+					lists = append(lists, []string{a, b, c})
+				}
+			}
+		}
+	}
+	for _, l := range lists {
+		want := false
+		for _, e := range l {
+			want = want || e == "print" || e == "all"
+		}
+		for _, sep := range []string{",", ", ", " , ", ",\t "} {
+			for _, pad := range []string{"", " "} {
+				n++
+				attr := pad + strings.Join(l, sep) + pad
+				src := "<style media=\"" + attr + "\">p { width: 20px }</style><p></p>"
+				page, err := NewHTML(utils.InputString(src), "", nil, "print")
+				if err != nil {
+					fails = append(fails, src+": "+err.Error())
+					continue
+				}
+				styleFor := GetAllComputedStyles(page, nil, false, nil, nil, nil, nil, false, nil)
+				it := page.Root.Iter()
+				for it.HasNext() {
+					if e := it.Next(); e.Data == "p" {
+						got := styleFor.Get((*utils.HTMLNode)(e), "").GetWidth()
+						if applied := got.Unit == pr.Px && got.Value == 20; applied != want && len(fails) < 6 {
+							fails = append(fails, fmt.Sprintf("media=%q rendered for print: sheet applied %v, expected %v", attr, applied, want))
+						}
+					}
+				}
+			}
+		}
+	}
+	return n, fails
+}
+
+//@ bounded vMediaAttributes a <style> element with every media attribute of one to three entries over screen, print, all, tv x 4 spellings of the comma x 2 paddings (672 documents) rendered for print: the sheet takes part in the cascade exactly when an entry is print or all
+//@   props C03
